@@ -46,6 +46,8 @@ class SymBuilder:
             return self.ctx.alloc(HDict({k: self.conv(x) for k, x in v.items()}))
         if isinstance(v, tuple):
             return tuple(self.conv(x) for x in v)
+        if isinstance(v, (Sym, Ref, Ext, ClassVal, FuncVal, BoundMethod, SpecFn, EnumMember)):
+            return v
         if isinstance(v, type) or callable(v):
             return Ext(v)
         return v
